@@ -58,14 +58,23 @@ func (m MValue) String() string {
 }
 
 // genNSchemaC12: objects only, every property evaluable and with its keys placed
-func genNSchemaC12(r *vh.Rand, env EnumEnv, depth int, counter *int) NSchema {
-	s := NSchema{Kind: "object"}
+func genNSchemaC12(r *vh.Rand, env EnumEnv, kind string, depth int, counter *int) NSchema {
+	s := NSchema{Kind: kind}
 	n := r.Range(1, 4)
 	for i := 0; i < n; i++ {
 		name := propName(r, i)
 		if depth > 0 && r.Chance(50) {
+			ik := "object"
 			p := Prop{Name: name, T: FTy{Kind: TObject}}
-			switch r.Intn(5) {
+			if r.Chance(30) {
+				ik = "oneof"
+				p.T = FTy{Kind: TOneof}
+			}
+			shape := r.Intn(5)
+			if kind == "oneof" {
+				shape = 4 // options are singular
+			}
+			switch shape {
 			case 0:
 				p.PK = PArray
 				if a := (&ArrRules{Min: optU(r, 2), Max: optU(r, 3)}); a.Min != nil || a.Max != nil {
@@ -80,8 +89,11 @@ func genNSchemaC12(r *vh.Rand, env EnumEnv, depth int, counter *int) NSchema {
 			default:
 				p.Req = r.Chance(35)
 				p.Opt = !p.Req && r.Chance(25)
+				if kind == "oneof" {
+					p.Req, p.Opt = r.Chance(10), false
+				}
 			}
-			inner := genNSchemaC12(r, env, depth-1, counter)
+			inner := genNSchemaC12(r, env, ik, depth-1, counter)
 			if r.Chance(50) {
 				*counter++
 				nm := fmt.Sprintf("Inner%d", *counter)
@@ -96,6 +108,12 @@ func genNSchemaC12(r *vh.Rand, env EnumEnv, depth int, counter *int) NSchema {
 				scope = "all"
 			}
 			gd := genProp(r, name, scope, env)
+			if kind == "oneof" && (gd.P.PK != PSingle || gd.P.Opt || isPrimary(gd.P)) {
+				continue
+			}
+			if kind == "oneof" && !r.Chance(15) {
+				gd.P.Req = false
+			}
 			if gd.Class == "" && keyPlacementOK(gd.P) && patternsOK(gd.P) && !uniqueOnMessages(gd.P) && len(fieldValues(r, gd.P)) > 0 {
 				s.Fields = append(s.Fields, NField{P: gd.P})
 				break
@@ -108,14 +126,38 @@ func genNSchemaC12(r *vh.Rand, env EnumEnv, depth int, counter *int) NSchema {
 // genMValue: a value of the schema; mostly what the declaration allows
 func genMValue(r *vh.Rand, env EnumEnv, s NSchema, good int) MValue {
 	var mv MValue
-	for _, f := range s.Fields {
+	chosen := -1 // a oneof: the member that is set (-1: none)
+	if s.Kind == "oneof" && !r.Chance(12) {
+		chosen = r.Intn(len(s.Fields))
+	}
+	for i, f := range s.Fields {
+		if s.Kind == "oneof" && i != chosen {
+			mv.Fvs = append(mv.Fvs, FValue{Absent: true})
+			if f.Inl != nil {
+				mv.Inner = append(mv.Inner, nil)
+			}
+			continue
+		}
 		if f.Inl == nil {
 			cands := fieldValues(r, f.P)
+			if s.Kind == "oneof" {
+				var set []FValue
+				for _, c := range cands {
+					if !c.Absent {
+						set = append(set, c)
+					}
+				}
+				cands = set
+			}
+			if len(cands) == 0 {
+				mv.Fvs = append(mv.Fvs, FValue{Absent: true})
+				continue
+			}
 			fv := vh.Pick(r, cands)
 			if r.Chance(good) {
 				var ok []FValue
 				for _, c := range cands {
-					if ruleSem(env, f.P, c) {
+					if propSem(env, s, f.P, c) {
 						ok = append(ok, c)
 					}
 				}
@@ -129,7 +171,7 @@ func genMValue(r *vh.Rand, env EnumEnv, s NSchema, good int) MValue {
 		n := 1
 		switch f.P.PK {
 		case PSingle:
-			if r.Chance(25) || (!f.P.Req && r.Chance(15)) {
+			if s.Kind != "oneof" && (r.Chance(25) || (!f.P.Req && r.Chance(15))) {
 				n = 0
 			}
 		default:
@@ -166,11 +208,19 @@ func genMValue(r *vh.Rand, env EnumEnv, s NSchema, good int) MValue {
 }
 
 // ruleTree: the declared rules of every property, and of every embedded message, recursively
+// propSem: a property of an object on its own; an option of a oneof as a member
+func propSem(env EnumEnv, s NSchema, p Prop, fv FValue) bool {
+	if s.Kind == "oneof" {
+		return memberSem(env, p, fv)
+	}
+	return ruleSem(env, p, fv)
+}
+
 func ruleTree(env EnumEnv, s NSchema, mv MValue) bool {
 	ok := true
 	k := 0
 	for i, f := range s.Fields {
-		if !ruleSem(env, f.P, mv.Fvs[i]) {
+		if !propSem(env, s, f.P, mv.Fvs[i]) {
 			ok = false
 		}
 		if f.Inl != nil {
@@ -258,7 +308,11 @@ func runNestedC12(r *vh.Rand, cfg *vh.Config, val protovalidate.Validator, res *
 			env = theEnumZ
 		}
 		counter := 0
-		s := genNSchemaC12(r, env, 2, &counter)
+		kind := "object"
+		if r.Chance(15) {
+			kind = "oneof"
+		}
+		s := genNSchemaC12(r, env, kind, 2, &counter)
 		hasInline := false
 		for _, f := range s.Fields {
 			hasInline = hasInline || f.Inl != nil
